@@ -284,3 +284,21 @@ package beacon
 //@ func (*Handler).run(h, startTime)
 //@   props C04
 //@   requires [C04] handlerShape(h)
+
+// ---- C07: the share / group swap happens when the last round of the old group is stored, and not before -------------
+//@ func (*Handler).TransitionNewGroup$1(b, closed)
+//@   props C07
+//@   requires b != nil && h != nil && h.crypto != nil && h.chain != nil && newGroup != nil
+//@   ensures [C07:new-share-and-group-are-live-once-the-last-pre-transition-round-is-stored] !closed && b.Round >= targetRound ==> h.crypto.group == newGroup && h.crypto.share == newShare
+//@   ensures [C07:no-swap-before-the-last-pre-transition-round] closed || b.Round < targetRound ==> h.crypto.group == old(h.crypto.group) && h.crypto.share == old(h.crypto.share) && h.crypto.pub == old(h.crypto.pub)
+
+//@ func (*Handler).TransitionNewGroup(h, ctx, newShare, newGroup)
+//@   props C07
+//@   requires h != nil ==> h.conf != nil && h.conf.Group != nil && h.chain != nil && newGroup != nil && common.validPeriod(h.conf.Group.Period) && common.validGenesis(h.conf.Group.GenesisTime) && newGroup.TransitionTime >= h.conf.Group.GenesisTime && newGroup.TransitionTime <= h.conf.Group.GenesisTime + 1125899906842624
+//@   call AddCallback#0: assert [C07:swap-is-armed-for-the-round-just-before-the-transition-time] common.timeOf(h.conf.Group.Period, h.conf.Group.GenesisTime, targetRound + 1) == newGroup.TransitionTime
+//@ iface (CallbackStore).AddCallback(s, id, fn)
+//@   trusted registers fn in the store's own callback registry (callbackStore.AddCallback is checked under C12); no other state of the functions under contract changes
+//@   modifies nothing
+//@ iface (CallbackStore).RemoveCallback(s, id)
+//@   trusted removes an entry of the store's own callback registry
+//@   modifies nothing
